@@ -1,26 +1,58 @@
 /-
 C10 — Decoding untrusted bytes never panics and never yields ill-formed strings.
+`parseJsonb` = model of `parse_jsonb`, `T.fromSlice` = model of `from_slice` (binary first, on
+ANY error the text parser).
 -/
 import JsonbModel.Proofs.DecTotal
 import JsonbModel.Proofs.TopLevel
+import JsonbModel.Proofs.DecUtf8
+import JsonbModel.Proofs.DecConsume
+import JsonbModel.Proofs.TextFallback
+import JsonbModel.Proofs.JsonParserTotal
 
 namespace Jsonb.Props
 open Jsonb JV
 
 /-- for EVERY byte string the decoder returns a value or an error: no panic site is reachable
-(after the three `fix:` commits; before them `decObjVals` / `Num.dec` had reachable panics) -/
-theorem C10_total (bs : Bytes) (s : String) : parseJsonb bs ≠ .panic s := parseJsonb_ne_panic bs s
+(after the `fix:` commits; before them `decObjVals` / `Num.dec` had reachable panics), and the
+fuel of the model never runs out -/
+theorem C10_total (bs : Bytes) : (∃ v, parseJsonb bs = .ok v) ∨ (∃ e, parseJsonb bs = .err e) :=
+  parseJsonb_ok_or_err bs
+theorem C10_never_panics (bs : Bytes) (s : String) : parseJsonb bs ≠ .panic s := parseJsonb_ne_panic bs s
+theorem C10_from_slice_never_panics (bs : Bytes) (s : String) : T.fromSlice bs ≠ .panic s := by
+  unfold T.fromSlice
+  have h1 := parseJsonb_ne_panic bs
+  have h2 := parseValue_ne_panic bs
+  cases h : parseJsonb bs with
+  | ok v => simp
+  | err e => simp only; exact h2 s
+  | panic t => exact absurd h (h1 t)
+  | fuel => simp
 
-/-- and for every fuel (so the claim does not depend on the fuel bound) -/
-theorem C10_total_any_fuel (fuel : Nat) (bs : Bytes) (s : String) : decJsonb fuel bs ≠ .panic s :=
-  (dec_nopanic fuel).1 bs s
+/-- every string or key inside a value the decoder returns is well-formed UTF-8 -/
+theorem C10_utf8 (bs : Bytes) (v : JV) (h : parseJsonb bs = .ok v) : allUtf8 v = true :=
+  parseJsonb_allUtf8 bs v h
 
-/-- decoding a valid encoding succeeds and never runs out of fuel (`decFuel` is adequate) -/
+/-- every proper prefix of a valid encoding is rejected with an error -/
+theorem C10_prefix_rejected (v : JV) (hg : goodTop v = true) (p : Bytes)
+    (hp : p <+: encodeSpec v) (hne : p ≠ encodeSpec v) : ∃ e, parseJsonb p = .err e :=
+  prefix_rejected v hg p hp hne
+
+/-- valid JSON text that does not begin with a space (first byte one of `n t f " - 0-9 [ {`, or
+white space other than the blank, or the `\` of escaped white space; shorter than 2^27 bytes)
+is never misread as binary: `from_slice` hands it to the text parser -/
+theorem C10_text_fallback (t : Bytes) (b0 : UInt8) (tl : Bytes) (ht : t = b0 :: tl)
+    (hs : jsonStart b0 = true) (hl : t.length < 134217728) :
+    T.fromSlice t = parseValue t := fromSlice_text t b0 tl ht hs hl
+
+/-- valid encodings decode (fuel adequate), also with trailing bytes -/
 theorem C10_valid_decodes (v : JV) (h : goodTop v = true) :
     parseJsonb (encodeSpec v) = .ok (norm v) := parseJsonb_encodeSpec v h
 
-/-- the witness of defect D1 (object whose key entry is `null`) is now an error -/
+/-- witnesses of the repaired defects: D1 (non-string key entry) is an error; D11 the text
+`12345678` is no longer a binary scalar -/
 example : (parseJsonb [0x40, 0, 0, 1, 0, 0, 0, 0, 0, 0, 0, 0]).isOk = false ∧
     (parseJsonb [0x40, 0, 0, 1, 0, 0, 0, 0, 0, 0, 0, 0]).isPanic = false := by decide
+example : (parseJsonb [0x31, 0x32, 0x33, 0x34, 0x35, 0x36, 0x37, 0x38]).isOk = false := by decide
 
 end Jsonb.Props
